@@ -59,6 +59,22 @@ func accessPath(v ssa.Value) string {
 		case *ssa.FreeVar:
 			return "fv:" + x.Name()
 		case *ssa.Alloc:
+			// a spilled variable (captured by a closure / address taken) holding a single value
+			var src ssa.Value
+			n := 0
+			for _, ref := range *x.Referrers() {
+				if st, ok := ref.(*ssa.Store); ok && st.Addr == ssa.Value(x) {
+					src = st.Val
+					n++
+				}
+			}
+			if n == 1 {
+				v = src
+				continue
+			}
+			if n > 1 {
+				return "?multi-assigned"
+			}
 			return "alloc:" + x.Name()
 		case *ssa.FieldAddr:
 			return accessPath(x.X) + "." + fieldName(x.X.Type(), x.Field)
